@@ -139,12 +139,27 @@ def worker(case, led):
                           key + ("coeff",), fields, rep, nontriv)
                 led.check(close(S.dense(a_c), 0.7 * da) and close(S.dense(b_c), -1.3 * db), "frame:Mps.add:represented_inputs", "Mps.add",
                           "prefactor folding changed a represented operand", key + ("coeff-frame",), fields, rep, nontriv)
-                a_c, b_c = a.copy(), b.copy()
-                a_c.coeff, b_c.coeff = 0.5, 2.0
-                d = a_c.distance(b_c)
-                dref = float(np.linalg.norm(0.5 * da - 2.0 * db))
-                led.check(abs(d - dref) <= 1e-7 * max(1.0, dref), "post:Mps.distance:dense_distance_with_coeff", "Mps.distance",
-                          f"distance {d} vs dense {dref}", key + ("distc",), fields, rep, nontriv)
+                for ca, cb in ((0.5, 2.0), (0.6 + 0.8j, 0.3 - 1.2j), (1j, 1.0), (-0.4 + 0.3j, -0.4 + 0.3j)):
+                    # real, genuinely complex (different / equal) prefactors: the distance is symmetric and equals the dense one; the represented operands stay
+                    a_c, b_c = a.copy(), b.copy()
+                    a_c.coeff, b_c.coeff = ca, cb
+                    d = a_c.distance(b_c)
+                    dref = float(np.linalg.norm(ca * da - cb * db))
+                    led.check(abs(d - dref) <= 1e-7 * max(1.0, dref), "post:Mps.distance:dense_distance_with_coeff", "Mps.distance",
+                              f"prefactors {ca}, {cb}: distance {d} vs dense {dref}", key + ("distc", str(ca), str(cb)),
+                              dict(fields, shared_prefactor_of_modulus_other_than_one=bool(ca == cb and abs(abs(ca) - 1) > 1e-12)), dict(rep, prefactors=[str(ca), str(cb)]), nontriv)
+                    led.check(close(sdense(a_c), ca * da) and close(sdense(b_c), cb * db), "frame:Mps.distance:represented_inputs", "Mps.distance",
+                              f"prefactors {ca}, {cb}: distance changed a represented operand", key + ("distc-frame", str(ca), str(cb)), fields, rep, nontriv)
+                    a_c, b_c = a.copy(), b.copy()
+                    a_c.coeff, b_c.coeff = ca, cb
+                    d2 = b_c.distance(a_c)
+                    led.check(abs(d2 - d) <= 1e-7 * max(1.0, dref), "post:Mps.distance:symmetric", "Mps.distance",
+                              f"prefactors {ca}, {cb}: distance(b, a) = {d2}, distance(a, b) = {d}", key + ("distc-sym", str(ca), str(cb)), fields, dict(rep, prefactors=[str(ca), str(cb)]), nontriv)
+                    a_c, b_c = a.copy(), b.copy()
+                    a_c.coeff, b_c.coeff = ca, cb
+                    r = a_c.add(b_c)
+                    led.check(close(sdense(r), ca * da + cb * db), "post:Mps.add:dense_sum_with_coeff", "Mps.add", f"sum with prefactors {ca}, {cb} wrong",
+                              key + ("coeff", str(ca), str(cb)), fields, rep, nontriv)
                 # ---- dot / distance / norm / conj / scale
                 ov = a.conj().dot(b)
                 led.check(abs(ov - np.vdot(da, db)) <= TOL * max(1, abs(ov)), "post:MatrixProduct.dot:overlap", "MatrixProduct.dot",
@@ -158,6 +173,13 @@ def worker(case, led):
                 cj = b.conj()
                 led.check(close(S.dense(cj), db.conj()) and not S.qnv_violations(cj), "post:MatrixProduct.conj:dense_conj", "MatrixProduct.conj",
                           "conj wrong or labels invalid", key + ("conj",), fields, rep, nontriv)
+                # scalars of every magnitude and phase: the result is val * object to relative accuracy, however small the real or the imaginary part is
+                for val in (1e-9j, (3 + 3j) * 1e-9, 1 + 4e-9j, 2e-12, -1e-3j, 5e7 - 2e-2j, np.complex128(1e-9j), np.float64(-3e-11)):
+                    r = a.scale(val)
+                    err = float(np.linalg.norm(sdense(r) - val * da))
+                    led.check(err <= 1e-11 * abs(val) * max(float(np.linalg.norm(da)), 1e-300) or float(np.linalg.norm(da)) == 0, "post:MatrixProduct.scale:dense_scale_relative",
+                              "MatrixProduct.scale", f"scale({val!r}): |result - val * a| = {err:.3e}, |val| |a| = {abs(val) * float(np.linalg.norm(da)):.3e}",
+                              key + ("scale-rel", repr(val)), fields, dict(rep, scalar=repr(val)), nontriv)
                 for val in (0.3, -2.0, 0.5 + 0.2j):
                     r = a.scale(val)
                     led.check(close(S.dense(r), val * da) and not S.qnv_violations(r), "post:MatrixProduct.scale:dense_scale",
